@@ -93,6 +93,7 @@ func runC03(c *core.Ctx) {
 	x.runK7()
 	x.runK15()
 	x.runK16()
+	x.runK17()
 	c.Note("reachable repository functions: %d (load set %d, run set %d incl. dependencies)", len(x.fns), len(x.load), len(x.run))
 }
 
